@@ -69,8 +69,7 @@ def fastRes (k : Kind) (b : Bytes) : Res :=
   match Cbor.decodeFirst b with
   | none => .err
   | some (v, _) =>
-    if !Fast.parserAccepts (Cbor.stats 64 v) then .err else
-    match Fast.decode k v with
+    match Fast.decodeLimited k v with
     | .ok n => .ok (obs n)
     | .err _ => .err
     | .panic _ => .panic
@@ -113,8 +112,7 @@ def longlist (k : Kind) (n : Nat) (c : Cid) : String :=
   | some node =>
     if !decide node.WF then "not-wf" else
     let v := Ref.encode node
-    let f : Res := if !Fast.parserAccepts (Cbor.stats 64 v) then .err else
-      match Fast.decode k v with | .ok m => .ok (obs m) | .err _ => .err | .panic _ => .panic
+    let f : Res := match Fast.decodeLimited k v with | .ok m => .ok (obs m) | .err _ => .err | .panic _ => .panic
     let c : Res := match Ref.decode k v with | .ok m => .ok (obs m) | .error _ => .err
     match f, c with
     | .ok a, .ok b => if a = obs node ∧ b = obs node then "accepted-by-both" else "observations-differ"
